@@ -71,16 +71,21 @@ Reset(ev) ==
 
 \* The private window a (re)loaded rule ends up with: that of an equal old rule; else that of an
 \* old rule with the same interval (the code hands the statistics over) or a fresh one.
-SinceChoices(r) ==
+\* `same`: the rules of r's resource after the load equal, as a set under rule equality, those before it -
+\* the case the property speaks about; when another rule of the resource changed in the same call the
+\* code may hand an old window to the changed rule and rebuild the unchanged one: either way is allowed.
+SinceChoices(r, same) ==
     LET eq == {o \in rules : SameRule(o, r)}
         ru == {o \in rules : StatReusable(o, r)}
-    IN  IF eq # {} THEN {sinceIdx[o.id] : o \in eq}
+    IN  IF eq # {} /\ same THEN {sinceIdx[o.id] : o \in eq}
         ELSE {Len(Adm(r.res))} \cup {sinceIdx[o.id] : o \in ru}
+SameSets(A, B) == (\A a \in A : \E b \in B : SameRule(a, b)) /\ (\A b \in B : \E a \in A : SameRule(a, b))
 
 ChoiceFns(new, keep) ==
     LET ids == {r.id : r \in new \cup keep}
-        rng == UNION {SinceChoices(r) : r \in new} \cup {sinceIdx[r.id] : r \in keep}
-    IN  {f \in [ids -> rng] : /\ \A r \in new : f[r.id] \in SinceChoices(r)
+        same(r) == SameSets({o \in rules : o.res = r.res}, {x \in new \cup keep : x.res = r.res})
+        rng == UNION {SinceChoices(r, same(r)) : r \in new} \cup {sinceIdx[r.id] : r \in keep}
+    IN  {f \in [ids -> rng] : /\ \A r \in new : f[r.id] \in SinceChoices(r, same(r))
                               /\ \A r \in keep : f[r.id] = sinceIdx[r.id]}
 
 LoadAll(ev) ==
